@@ -8,8 +8,10 @@ from pyvc.spec import SpecSeq
 from pyvc.symexec import TupleSort
 
 FILE = F_QA = 'atsim/potentials/tools/potable/_query_actions.py'
-REG.classes['ConfigParser'].fields['raw_config_parser'] = T.Obj('RawCP')      # property: `return self._config_parser` (one line; A6 for views: wrapt passes the attribute through)
-raw_of = field('ConfigParser', 'raw_config_parser', DU.RCP)
+F_CP = 'atsim/potentials/config/_config_parser.py'
+raw_of = DU.rawcp       # the parser object's strict INI parser; the property raw_config_parser returns it (verified below; A6 for views: wrapt passes the attribute through)
+REG.add(Contract(F_CP, 'ConfigParser.raw_config_parser', params=[('self', T.Obj('ConfigParser'))], result=T.Obj('RawCP'),
+    ensures=lambda v, old, res: [res == DU.rawcp(v.self)], raises_when=lambda v, old, exc: [z3.BoolVal(False)], on_raise=lambda v, old: [], raises_classes=[], carries=['post'], props=['C14']))
 ItemT = T.Tuple(T.Text, T.Str); ItemS = TupleSort([Doc, StrS]); ItemL = z3.SeqSort(ItemS)
 def item_of(sp, section, k):
     """(label, value) of the k-th option of a section: label = SECTION_NAME:KEY as the listing prints it"""
@@ -22,7 +24,7 @@ REG.add(Contract(F_QA, '_list_section', params=[('cp', T.Obj('ConfigParser')), (
     ensures=lambda v, old, res: [res == section_items(DU.sec_of(raw_of(v.cp), v.section), v.section, z3.Length(DU.sec_keys(DU.sec_of(raw_of(v.cp), v.section))))],
     post_names=['every-option-of-the-section-once-in-file-order-with-its-value'],
     invariants={0: lambda v, old: [v.outlist == section_items(DU.sec_of(raw_of(v.cp), old.section), old.section, v._i0)]},
-    ghost={'outlist': ItemT}, raises_when=lambda v, old, exc: [z3.BoolVal(False)], on_raise=lambda v, old: [],
+    ghost={'outlist': ItemT}, raises_when=lambda v, old, exc: [z3.BoolVal(False)], on_raise=lambda v, old: [], raises_classes=[],
     carries=['post', 'preserve/0'], props=['C14']))
 
 from . import potable_cli as CLI
@@ -32,4 +34,80 @@ REG.add(Contract(F_QA, '_item_value', params=[('cp', T.Obj('ConfigParser')), ('k
                         sec_has(DU.sec_of(raw_of(v.cp), CLI.item_sec(v.key, NOVAL)), CLI.item_key(v.key, NOVAL))],       # an item of the file (a missing one: KeyError, outside the statement)
     ensures=lambda v, old, res: [res == sec_get(DU.sec_of(raw_of(v.cp), CLI.item_sec(v.key, NOVAL)), CLI.item_key(v.key, NOVAL))],
     post_names=['the-value-of-the-item-SECTION_NAME:KEY'], definitions=CLI.item_definitions,
-    raises_when=lambda v, old, exc: [z3.BoolVal(False)], on_raise=lambda v, old: [], carries=['post'], props=['C14']))
+    raises_when=lambda v, old, exc: [z3.BoolVal(False)], on_raise=lambda v, old: [], raises_classes=[], carries=['post'], props=['C14']))
+
+# ---------------------------------------------------------------- ConfigParser.parsed_sections / the listing of the whole file
+StrL = z3.SeqSort(StrS)
+def _sv(x): return z3.StringVal(x)
+def _in(lst, x): return z3.Contains(lst, z3.Unit(_sv(x)))
+FIXED = [('Tabulation', 'tabulation'), ('Pair', 'pair'), ('EAM-Embed', 'eam_embed'), ('Potential-Form', 'potential_form'), ('Table-Form', 'table_form')]
+def _ps_post(v, old, res):
+    raw = DU.rawcp(v.self)
+    out = [_in(res, attr) == DU.has_sec(raw, _sv(sec)) for sec, attr in FIXED]
+    out.append(z3.Or(_in(res, 'eam_density'), _in(res, 'eam_density_fs')) == DU.has_sec(raw, _sv('EAM-Density')))
+    return out
+def _ps_inv(v, old):
+    """while looking for a '->' key: the flag is still down (the loop leaves at the first such key)"""
+    return [z3.Not(v.isFS)]
+REG.add(Contract(F_CP, 'ConfigParser.parsed_sections', params=[('self', T.Obj('ConfigParser'))], result=T.List(T.Str),
+    ensures=_ps_post, post_names=['%s-iff-[%s]' % (a, s_) for s_, a in FIXED] + ['one-of-the-two-density-names-iff-[EAM-Density]'],
+    invariants={0: _ps_inv}, ghost={'sections': T.Str}, raises_when=lambda v, old, exc: [z3.BoolVal(False)], on_raise=lambda v, old: [], raises_classes=[],
+    carries=['post'], props=['C14']))
+
+# ---- items of a list of sections, section after section
+from pyvc.spec import SpecAcc, FilterSeq
+from . import tableform_dups as TFD
+def _sec_items(raw, name):
+    sp = DU.sec_of(raw, name)
+    return section_items(sp, name, z3.Length(DU.sec_keys(sp)))
+items_of_sections = SpecAcc('items_of_sections', [DU.RCP, StrL], lambda raw, secs: z3.Empty(ItemL), lambda raw, secs, t, prev: z3.Concat(prev, _sec_items(raw, secs[t])), result=ItemL)
+def _all_exist(raw, secs):
+    j = z3.Int('j!ae')
+    return z3.ForAll([j], z3.Implies(z3.And(0 <= j, j < z3.Length(secs)), DU.has_sec(raw, secs[j])))
+REG.add(Contract(F_QA, '_parse_raw', params=[('cp', T.Obj('ConfigParser')), ('orphan_sections', T.List(T.Str))], result=T.List(ItemT),
+    requires=lambda v: [_all_exist(raw_of(v.cp), v.orphan_sections)],
+    ensures=lambda v, old, res: [res == items_of_sections(raw_of(v.cp), v.orphan_sections, z3.Length(v.orphan_sections))],
+    post_names=['the-items-of-the-named-sections-section-after-section'],
+    invariants={0: lambda v, old: [v.outlist == items_of_sections(raw_of(v.cp), v.orphan_sections, v._i0)]}, ghost={'outlist': ItemT},
+    raises_when=lambda v, old, exc: [z3.BoolVal(False)], on_raise=lambda v, old: [], raises_classes=[], instantiate_int_foralls=True,
+    carries=['post', 'preserve/0'], props=['C14']))
+
+# ---- the whole listing: the five sections with fixed names (those present), then every other section in file order, then [Variables]
+LISTED = ['Pair', 'Potential-Form', 'Tabulation', 'EAM-Embed', 'EAM-Density']      # order of the listing
+def is_other(s): return z3.And(*[s != _sv(n) for n in LISTED])
+other_sections = FilterSeq('other_sections', [StrL], lambda S, k: is_other(S[k]), lambda S, k: S[k], StrS)
+REG.classes['RawCP'].fields['default_section'] = T.Str
+VarsT = T.ODict(T.Str, T.Str)
+var_keys = z3.Function('variables_of', DU.RCP, StrL); var_val = z3.Function('variable_value', DU.RCP, StrS, StrS)
+dflt_sec = field('RawCP', 'default_section', StrS)
+def _defaults_post(v, old, res):
+    k = z3.String('k!df')
+    return [res.order == var_keys(v.self), z3.ForAll([k], z3.Select(res.get, k) == var_val(v.self, k), patterns=[z3.Select(res.get, k)])]
+REG.add(Contract('<ext>', 'RawCP.defaults', params=[('self', T.Obj('RawCP'))], result=VarsT, ensures=_defaults_post, external=True,
+    note='configparser.defaults(): the ordered dictionary of the default section ([Variables]): its keys in file order with their (raw) values', props=['C14']))
+# A5 facts about sections(): every listed name is a section
+def _sections_exist(raw):
+    j = z3.Int('j!se'); S = TFD.sections_of(raw)
+    return z3.ForAll([j], z3.Implies(z3.And(0 <= j, j < z3.Length(S)), DU.has_sec(raw, S[j])), patterns=[S[j]])
+_c_sections = REG.get('<ext>', 'RawCP.sections'); _old_ens = _c_sections.ensures
+_c_sections.ensures = lambda v, old, res: _old_ens(v, old, res) + [_sections_exist(v.self)]
+var_items = SpecSeq('variable_items', [DU.RCP], lambda raw, k: z3.Unit(ItemS.mk(tok("{section}:{key}", dflt_sec(raw), var_keys(raw)[k]), var_val(raw, var_keys(raw)[k]))), result=ItemL, elem_len=1)
+def _members_by_position():
+    """a valid fact of the theory of sequences, stated for the matcher: the item at a position is a member"""
+    q = z3.Const('q!mp', StrL); i = z3.Int('i!mp')
+    return z3.ForAll([q, i], z3.Implies(z3.And(0 <= i, i < z3.Length(q)), z3.Contains(q, z3.Unit(q[i]))), patterns=[q[i]])
+def fixed_part(raw, upto=len(LISTED)):
+    out = z3.Empty(ItemL)
+    for n in LISTED[:upto]: out = z3.Concat(out, z3.If(DU.has_sec(raw, _sv(n)), _sec_items(raw, _sv(n)), z3.Empty(ItemL)))
+    return out
+def whole_listing(raw, nvars):
+    S = TFD.sections_of(raw); others = other_sections(S, z3.Length(S))
+    return z3.Concat(fixed_part(raw), items_of_sections(raw, others, z3.Length(others)), var_items(raw, nvars))
+REG.add(Contract(F_QA, '_list_items', params=[('cp', T.Obj('ConfigParser'))], result=T.List(ItemT),
+    ensures=lambda v, old, res: [res == whole_listing(raw_of(v.cp), z3.Length(var_keys(raw_of(v.cp))))],
+    post_names=['fixed-sections-then-every-other-section-in-file-order-then-the-variables'],
+    comprehensions={0: (other_sections, lambda v: [TFD.sections_of(raw_of(v.cp))])},
+    invariants={0: lambda v, old: [v.items == whole_listing(raw_of(v.cp), v._i0)]}, ghost={'items': ItemT},
+    definitions=lambda: [other_sections.positions_lemma()],
+    raises_when=lambda v, old, exc: [z3.BoolVal(False)], on_raise=lambda v, old: [], raises_classes=[], instantiate_int_foralls=True,
+    carries=['post', 'preserve/0', 'comprehension'], props=['C14']))
